@@ -214,6 +214,8 @@ class Machine:
         light = self._get_named_light()
         if light is not None and isinstance(light, MatrixLight):
             matrix = self._reg.matrix
+            if matrix is None:
+                return
             matrix = self._as_raw_matrix(matrix)
             matrix.find_replace(None, self._reg.default or [0, 0, 0, 0])
             duration = self._as_raw_time(self._reg.duration)
